@@ -628,22 +628,51 @@ int main(int argc, char **argv)
           else if ((!strcmp(op, "iterate") || !strcmp(op, "citerate")) && na == 0) {
             Setting &s = cpp_at(pth); cmode = C_LEN; c_set = cs;
             std::vector<int> seen; int dist;
+            /* every visit goes through an iterator that was first bound to ANOTHER aggregate (the root) and then
+             * assigned; afterwards the rest of the iterator interface - decrement, post forms, arithmetic,
+             * difference - must describe the same children (markers -3..-6 in the visit list otherwise) */
             if (!strcmp(op, "iterate")) {
-              for (Setting::iterator it = s.begin(); it != s.end(); ++it) {
+              Setting &root = cfg->getRoot(); Setting::iterator it = root.begin();
+              it = s.begin();
+              for (; it != s.end(); ++it) {
                 Setting &k = *it; int j, len = config_setting_length(cs);
                 for (j = 0; j < len && config_setting_get_elem(cs, j) != k._setting; j++) ;
                 seen.push_back(j < len ? j : -1);
                 if (it->_setting != k._setting) seen.push_back(-2);
               }
               dist = s.end() - s.begin();
+              { int len = config_setting_length(cs), n = len; Setting::iterator b = root.end(); b = s.end();
+                while (b != s.begin()) { --b; --n; if (n < 0 || b->_setting != config_setting_get_elem(cs, n)) { seen.push_back(-3); break; } }
+                if (n != 0 && n != -1) seen.push_back(-3);
+                for (int q = 0; q < len; q++) {
+                  Setting::iterator a = s.begin() + q, c = s.end() - (len - q), d = s.begin(); d += q;
+                  if (a->_setting != config_setting_get_elem(cs, q) || c->_setting != a->_setting || d->_setting != a->_setting) { seen.push_back(-4); break; }
+                  if ((a - s.begin()) != q || !(a == c) || (a != d)) { seen.push_back(-5); break; }
+                  Setting::iterator e = a++; if (e->_setting != config_setting_get_elem(cs, q) || (a - s.begin()) != q + 1) { seen.push_back(-6); break; }
+                  Setting::iterator f = a--; if ((f - s.begin()) != q + 1 || a->_setting != config_setting_get_elem(cs, q)) { seen.push_back(-6); break; }
+                  /* SettingIterator::operator< is declared in libconfig.h++ but defined nowhere in the library: not used */
+                }
+              }
             } else {
-              const Setting &cs2 = s;
-              for (Setting::const_iterator it = cs2.begin(); it != cs2.end(); it++) {
+              const Setting &cs2 = s; const Setting &croot = cfg->getRoot(); Setting::const_iterator it = croot.begin();
+              it = cs2.begin();
+              for (; it != cs2.end(); it++) {
                 const Setting &k = *it; int j, len = config_setting_length(cs);
                 for (j = 0; j < len && config_setting_get_elem(cs, j) != k._setting; j++) ;
                 seen.push_back(j < len ? j : -1);
               }
               dist = cs2.end() - cs2.begin();
+              { int len = config_setting_length(cs), n = len; Setting::const_iterator b = croot.end(); b = cs2.end();
+                while (b != cs2.begin()) { --b; --n; if (n < 0 || b->_setting != config_setting_get_elem(cs, n)) { seen.push_back(-3); break; } }
+                if (n != 0 && n != -1) seen.push_back(-3);
+                for (int q = 0; q < len; q++) {
+                  Setting::const_iterator a = cs2.begin() + q, c = cs2.end() - (len - q), d = cs2.begin(); d += q;
+                  if (a->_setting != config_setting_get_elem(cs, q) || c->_setting != a->_setting || d->_setting != a->_setting) { seen.push_back(-4); break; }
+                  if ((a - cs2.begin()) != q || !(a == c) || (a != d)) { seen.push_back(-5); break; }
+                  Setting::const_iterator e = a++; if (e->_setting != config_setting_get_elem(cs, q) || (a - cs2.begin()) != q + 1) { seen.push_back(-6); break; }
+                  Setting::const_iterator f = a--; if ((f - cs2.begin()) != q + 1 || a->_setting != config_setting_get_elem(cs, q)) { seen.push_back(-6); break; }
+                }
+              }
             }
             printf("iter ");
             if (seen.empty()) printf("-");
